@@ -127,6 +127,7 @@ WhyQuery(ev, b) ==
     [] o = "mem_size" ->
         IF ev.out # "ret" THEN "outcome"
         ELSE IF ev.res >= 200000000 THEN "space"
+        ELSE IF ev.res * 8 > MemBoundBits23(b, NumShards(b)) THEN "space-gross"
         ELSE IF ev.res * 8 > MemBoundBits(b, NumShards(b)) THEN "space" ELSE "ok"
     [] o = "reload" ->
         IF ev.out # "ret" THEN "outcome" ELSE IF ev.res # "ok" THEN "reload-failed" ELSE "ok"
